@@ -379,41 +379,61 @@ func runC14(ch *Choices, cfg *RunCfg) (o *Outcome) {
 	o = newOutcome()
 	c14Calibrate()
 	setMapOrder(ch.Salt("mapsalt"))
-	g := NewGen(ch, c14Domain())
-	nvals := ch.Range(1, 4, "nvals")
-	vals := make([]interface{}, nvals)
-	for i := range vals {
-		vals[i] = g.Value()
-	}
-	// the sender: a real encoder
-	resetClock(0)
-	w := &FaultyWriter{}
-	encOK := true
-	func() {
-		defer func() {
-			if recover() != nil {
-				encOK = false
+	var valid []byte
+	var starts []int
+	var nvals int
+	var firstDesc string
+	switch ch.Pick([]int{70, 15, 15}, "stream.kind") {
+	case 0:
+		g := NewGen(ch, c14Domain())
+		nvals = ch.Range(1, 4, "nvals")
+		vals := make([]interface{}, nvals)
+		for i := range vals {
+			vals[i] = g.Value()
+		}
+		firstDesc = describe(vals[0])
+		// the sender: a real encoder
+		resetClock(0)
+		w := &FaultyWriter{}
+		encOK := true
+		func() {
+			defer func() {
+				if recover() != nil {
+					encOK = false
+				}
+			}()
+			enc := hessian.NewEncoder(w, ZooNameMap)
+			for _, v := range vals {
+				if enc.WriteObject(v) != nil {
+					encOK = false
+					return
+				}
 			}
 		}()
-		enc := hessian.NewEncoder(w, ZooNameMap)
-		for _, v := range vals {
-			if enc.WriteObject(v) != nil {
-				encOK = false
-				return
-			}
+		if !encOK {
+			o.Skipped = true
+			o.Probes["sender could not encode (run skipped)"]++
+			return o
 		}
-	}()
-	if !encOK {
-		o.Skipped = true
-		o.Probes["sender could not encode (run skipped)"]++
-		return o
-	}
-	valid := append([]byte(nil), w.Sink.Bytes()...)
-	starts := make([]int, 0, len(w.Lens))
-	off := 0
-	for _, l := range w.Lens {
-		starts = append(starts, off)
-		off += l
+		valid = append([]byte(nil), w.Sink.Bytes()...)
+		off := 0
+		for _, l := range w.Lens {
+			starts = append(starts, off)
+			off += l
+		}
+	case 1:
+		// a peer that uses the legal encodings the Go encoder never emits
+		var feats map[string]int
+		valid, nvals, feats = foreignStream(ch, false)
+		firstDesc = "foreign (non-canonical but legal) stream"
+		for k := range feats {
+			o.Probes["valid stream uses: "+k]++
+		}
+	default:
+		// a hostile peer: legal structure built to be expensive
+		valid, firstDesc = hostileStream(ch)
+		nvals = 1
+		o.Probes["hostile structured stream (DAG / deep nesting / reference fan-in)"]++
 	}
 	tm, tmName := c14TypeMap(ch)
 	entry := ch.Intn(nC14Entry, "entry")
@@ -421,7 +441,7 @@ func runC14(ch *Choices, cfg *RunCfg) (o *Outcome) {
 	fp := NewFingerprint()
 	fp.Add(uint64(entry), hashBytes(valid), hashString(tmName))
 	o.Fingerprint = fp.Sum()
-	o.Sample = map[string]interface{}{"entry": c14EntryNames[entry], "typemap": tmName, "values": nvals, "stream_bytes": len(valid), "first_value": describe(vals[0])}
+	o.Sample = map[string]interface{}{"entry": c14EntryNames[entry], "typemap": tmName, "values": nvals, "stream_bytes": len(valid), "first_value": firstDesc}
 
 	pinKind, pinArg := "", 0
 	if cfg.Pin != "" {
@@ -478,12 +498,15 @@ func runC14(ch *Choices, cfg *RunCfg) (o *Outcome) {
 	if cfg.Tier == "thorough" {
 		limit = 6000
 	}
+	if n > 0 && limit > 3_000_000/n {
+		limit = 3_000_000/n + 20 // bound the bytes decoded per run: long streams get strided cut offsets
+	}
 	if n > limit {
 		stride = n/limit + 1
 	}
 	for _, kind := range []TFaultKind{TCut, TReset} {
 		for k := 0; k < n; k++ {
-			if stride > 1 && k > 300 && k < n-300 && k%stride != 0 {
+			if stride > 1 && k > 40 && k < n-40 && k%stride != 0 {
 				continue
 			}
 			if pinKind != "" && !(pinKind == kind.String() && pinArg == k) {
@@ -501,6 +524,9 @@ func runC14(ch *Choices, cfg *RunCfg) (o *Outcome) {
 	nplans := 24
 	if cfg.Tier == "thorough" {
 		nplans = 64
+	}
+	if n > 20000 {
+		nplans /= 4
 	}
 	for i := 0; i < nplans; i++ {
 		plan := c14DrawPlan(ch, n, starts)
